@@ -27,7 +27,35 @@ def load_cases():
     return m.MUTANTS, m.NEUTRAL
 
 
-def make_scratch(edits):
+ALL_PROPS = ["C01", "C02", "C03", "C04", "C05", "C06", "C07", "C08", "C09", "C12", "C13", "C14", "C15", "C16", "C17", "C18", "C19"]
+
+
+def load_patch_cases():
+    """the independently seeded changes (seeded/<id>: must fire a rule of meta.detected_by under the seed's property or the
+    property the rule belongs to) and behaviour-preserving refactors (neutral_seeded/<id>: every check silent)"""
+    mut, neu = [], []
+    sd = os.path.join(VERIF, "seeded")
+    for n in sorted(os.listdir(sd)) if os.path.isdir(sd) else []:
+        mp = os.path.join(sd, n, "meta.json")
+        pp = os.path.join(sd, n, "patch.diff")
+        if not (os.path.exists(mp) and os.path.exists(pp)):
+            continue
+        meta = json.load(open(mp))
+        det = [d for d in meta.get("detected_by", []) if re.match(r"C\d\d\.", d)]
+        if not det:
+            continue      # recorded as missed
+        own = [d for d in det if d.startswith(meta.get("property", "?") + ".")]
+        first = (own or det)[0]
+        mut.append(dict(name="seed:" + n, prop=first.split(".")[0], expect=first.split("(")[0].split(":")[0] + ":", patch=pp, edits=[]))
+    nd = os.path.join(VERIF, "neutral_seeded")
+    for n in sorted(os.listdir(nd)) if os.path.isdir(nd) else []:
+        pp = os.path.join(nd, n, "patch.diff")
+        if os.path.exists(pp):
+            neu.append(dict(name="neutral:" + n, props=ALL_PROPS, patch=pp, edits=[]))
+    return mut, neu
+
+
+def make_scratch(edits, patch=None):
     d = tempfile.mkdtemp(prefix="rr-selftest-")
     for item in ("src", "rustradio_macros", "Cargo.toml", "Cargo.lock", "examples", "benches", "tests", "testdata",
                  "extra", "README.md", "doc"):
@@ -45,6 +73,11 @@ def make_scratch(edits):
             raise RuntimeError("edit anchor found %d times (want %d) in %s: %r" % (cnt, e.get("count", 1), e["file"], e["old"][:60]))
         txt = txt.replace(e["old"], e["new"])
         open(p, "w").write(txt)
+    if patch:
+        r = subprocess.run(["patch", "-p1", "-s", "-i", patch], cwd=d, stdout=subprocess.PIPE, stderr=subprocess.STDOUT, text=True)
+        if r.returncode != 0:
+            shutil.rmtree(d, ignore_errors=True)
+            raise RuntimeError("patch does not apply: %s" % r.stdout[-300:])
     return d
 
 
@@ -66,7 +99,7 @@ def run_tests(scratch, worker):
 def one_case(kind, case, worker, with_tests):
     t0 = time.time()
     try:
-        scratch = make_scratch(case["edits"])
+        scratch = make_scratch(case["edits"], case.get("patch"))
     except RuntimeError as e:
         return dict(name=case["name"], kind=kind, ok=False, why="stale edit: %s" % e, secs=0)
     try:
@@ -121,6 +154,8 @@ def main(argv):
             filt.append(argv[i])
             i += 1
     mutants, neutral = load_cases()
+    pm, pn = load_patch_cases()
+    mutants, neutral = mutants + pm, neutral + pn
     cases = [("mutant", c) for c in mutants] + [("neutral", c) for c in neutral]
     if filt:
         cases = [(k, c) for k, c in cases if any(f in c["name"] or f == c.get("prop") for f in filt)]
